@@ -19,6 +19,10 @@ Explain ==
       [] Ev.op = "fetch" -> /\ FetchAdd(Ev.t)
                             /\ Ev.ret = counter
                             /\ Ev.k = Len(got[Ev.t]) + 1
+      \* the index makes ids of one process distinct from each other; what makes a regenerated id distinct from ids
+      \* that came from elsewhere (files, other processes) is the random part, drawn anew by every call: among the
+      \* tens of thousands of calls of a run no two random parts are equal (63 bits each)
+      [] Ev.op = "randoms" -> Ev.distinct = Ev.calls /\ UNCHANGED vars
       [] OTHER -> FALSE
 
 Match == l <= Len(Rec) /\ l' = l + 1 /\ Explain
